@@ -92,6 +92,36 @@ Definition resize_wanted (cf : conf) (newcount bsize m : nat) : bool :=
   | _ => Nat.ltb (S m * c_th cf) (newcount * 16)
   end.
 
+(** the response event *)
+Definition op_finish (c k r1 r2 : nat) : prog (option unit) :=
+  Emit [EvCli "ret" (zl [c; r1; r2_of_code c k r1 r2])] (oret tt).
+
+(** after a successful insertion: count, evaluate the resizing policy, unlock, maybe resize *)
+Definition after_insert (cf : conf) (me : nat) (cl : cell) (bi : nat) (fin : prog (option unit)) : prog (option unit) :=
+  Act (a_count_faa_b bi) (fun vc =>
+    let after (m : nat) : prog (option unit) :=
+      thenu (cell_unlock cl)
+        (if resize_wanted cf (S (vn vc)) (vs vc) m
+         then bindo (resize (c_pol cf) (c_fuel cf) (c_nl cf) (c_hm cf) me) (fun _ => fin)
+         else fin) in
+    match c_rp cf with
+    | 0 => after 0
+    | _ => Act a_mask_ld (fun vm' => after (vn vm'))
+    end).
+
+(** what follows the bucket operation (whose results are in [v]) *)
+Definition op_tail (cf : conf) (me : nat) (bo : bop) (cl : cell) (c k : nat) (v : V) : prog (option unit) :=
+  let r1 := vn v in let r2 := vm v in let bi := vs v in
+  let fin := op_finish c k r1 r2 in
+  match bo with
+  | BInsert | BUpdate _ =>
+      let inserted := match bo with BInsert => Nat.eqb r1 1 | _ => Nat.eqb r1 1 && Nat.eqb r2 1 end in
+      if inserted then after_insert cf me cl bi fin else thenu (cell_unlock cl) fin
+  | BUnlink | BErase =>
+      thenu (cell_unlock cl) (if Nat.eqb r1 1 then Act a_count_fas (fun _ => fin) else fin)
+  | BFind => thenu (cell_unlock cl) fin
+  end.
+
 (** one client operation of thread [t]; [None] = a loop ran out of fuel (the thread stops) *)
 Definition run_op (cf : conf) (t : nat) (o : list nat) : prog (option unit) :=
   let c := nth 0 o 0 in let k := nth 1 o 0 in let a := nth 2 o 0 in let b := nth 3 o 0 in
@@ -102,29 +132,7 @@ Definition run_op (cf : conf) (t : nat) (o : list nat) : prog (option unit) :=
   | Some bo =>
       Emit [EvCli "inv" (zl [c; k; a; b])]
       (bindo (cell_lock (c_pol cf) (c_fuel cf) (c_nl cf) me h) (fun cl =>
-         Act (a_bucket_op (c_hm cf) bo k t) (fun v =>
-           let r1 := vn v in let r2 := vm v in let bi := vs v in
-           let fin : prog (option unit) := Emit [EvCli "ret" (zl [c; r1; r2_of_code c k r1 r2])] (oret tt) in
-           match bo with
-           | BInsert | BUpdate _ =>
-               let inserted := match bo with BInsert => Nat.eqb r1 1 | _ => Nat.eqb r1 1 && Nat.eqb r2 1 end in
-               if inserted then
-                 Act (a_count_faa_b bi) (fun vc =>
-                   let after (m : nat) : prog (option unit) :=
-                     thenu (cell_unlock cl)
-                       (if resize_wanted cf (S (vn vc)) (vs vc) m
-                        then bindo (resize (c_pol cf) (c_fuel cf) (c_nl cf) (c_hm cf) me) (fun _ => fin)
-                        else fin) in
-                   match c_rp cf with
-                   | 0 => after 0
-                   | _ => Act a_mask_ld (fun vm' => after (vn vm'))
-                   end)
-               else thenu (cell_unlock cl) fin
-           | BUnlink | BErase =>
-               thenu (cell_unlock cl)
-                 (if Nat.eqb r1 1 then Act a_count_fas (fun _ => fin) else fin)
-           | BFind => thenu (cell_unlock cl) fin
-           end)))
+         Act (a_bucket_op (c_hm cf) bo k t) (op_tail cf me bo cl c k)))
   end.
 
 Fixpoint run_ops (cf : conf) (t : nat) (os : list (list nat)) : prog unit :=
